@@ -19,8 +19,9 @@ RULE = ("per class (LRUCache, SimpleCache, HybridCache, DiskCache) and max_size 
         "(quick: LRU 4-5, Hybrid 3-4, Simple 4, Disk 2-3; thorough: LRU 5-6, Hybrid 4-5, Simple 5, Disk 3-4), with "
         "`k in cache` for every key and len(cache) observed after every operation, split into one case per prefix; "
         "shared=True variants of the same trees at smaller depth (one in-process manager); ALL schedules of two clients "
-        "issuing 1-2 put/get operations each on one cache (step scheduler: every call on the cache's dict/list/lock is "
-        "one step), outcome sets compared with the atomic interleavings; random sequences of <= 40 explicit "
+        "issuing 1-2 put/get/in/len/clear operations each on one cache (step scheduler: every call on the cache's "
+        "dict/list/lock is one step), each schedule replayed on the small-step model SharedSteps and the outcome "
+        "compared schedule by schedule (and judged against the linearizations of the abstract spec); random sequences of <= 40 explicit "
         "put/get/in/len/clear/reopen operations incl. zero, subnormal and huge float durations; hand-written witnesses "
         "of the repaired defects.  A tree case counts as ONE case although it covers hundreds to thousands of "
         "sequences; non-trivial = every tree and every two-client case, and every sequence that puts more distinct keys "
@@ -44,16 +45,22 @@ ASSUMPTIONS = [
     "shared=True is exercised sequentially in-process against the same model as shared=False (all manager objects "
     "come from one multiprocessing.Manager started by the harness; a used shared LRU/Hybrid cache is reset by "
     "emptying its manager containers directly)",
-    "concurrency: covered = every schedule of two clients with 1-2 put/get operations each, where each call on the "
-    "dict/list/lock objects is atomic (as manager proxy calls are) and the lock excludes; NOT modelled: real "
-    "multi-process timing, more than two clients, manager failures, `in`/`len` racing with a put (they are lock-free "
-    "single calls and may see the state between the eviction and the insertion of a concurrent put - after the fix "
-    "never more than max_size entries), several processes sharing one DiskCache directory",
+    "concurrency (shared=True): PROVED for any number of clients on the small-step model Model/SharedSteps.v (every "
+    "call on the managed dict/list and every lock acquire/release is one atomic step): lock invariant, "
+    "linearizability of put/get/clear to the sequential model, no exception, len <= max_size at every moment, and "
+    "exactly which dicts the lock-free `in`/`len` can see (a sequential state's dict with some keys deleted, or the "
+    "next state's dict - e.g. len may be max_size-1 in the middle of another client's evicting put).  TIED to the "
+    "code by replaying EVERY schedule of two clients (1-2 operations each, incl. `in`/`len`/clear) found by the "
+    "harness' step scheduler on that model, schedule by schedule.  NOT modelled: the manager process itself (proxy "
+    "calls are assumed atomic and the lock mutually exclusive), real OS timing, crashes of a client inside a "
+    "critical section, more than two clients in the correspondence (the theorems cover N), several processes "
+    "sharing one DiskCache directory",
     "max_size >= 1 (LRUCache rejects 0 itself; HybridCache(max_size=0).put raises ValueError - outside the property)",
 ]
 TRUSTED = ["Model/Caches.v mirrors pipefunc/cache.py by hand; tie = per-run differential execution on complete "
            "operation trees", "Coq PrimFloat = hardware binary64 = Python float (vm_compute)",
-           "the harness' step scheduler (two threads, semaphores) enumerates all schedules of its yield points"]
+           "the harness' step scheduler (two threads, semaphores) enumerates all schedules of its yield points; its "
+           "wrappers around dict/list define what one proxy call is (manager proxies are not used in these cases)"]
 
 NKEYS_MAX = 4
 
@@ -396,7 +403,9 @@ def run_conc(c, limit=4000):
     while stack:
         prefix = stack.pop()
         out, trace = _conc_once(c, prefix)
-        outcomes.add(out)
+        # the schedule (client picked at every scheduling point) and what it led to: compared schedule by
+        # schedule with the small-step model Model/SharedSteps.v
+        outcomes.add("".join(str(x[0]) for x in trace) + ":" + out)
         n += 1
         if n > limit:
             raise RuntimeError("too many schedules")
@@ -543,8 +552,10 @@ def conc_cases(rng, quick):
             return ["P", k, v, d if hyb else 0.0]
 
         setups = [[], [put(0, 1)], [put(0, 1), put(1, 2, 0.0)], [put(0, 1), ["G", 0], put(1, 2)]]
-        singles_a = [[put(k, 10 + k, 0.0)] for k in range(3)] + [[["G", k]] for k in range(2)]
-        singles_b = [[put(k, 20 + k, 2.0)] for k in range(3)] + [[["G", k]] for k in range(2)]
+        singles_a = [[put(k, 10 + k, 0.0)] for k in range(3)] + [[["G", k]] for k in range(2)] + [[["X"]]]
+        # the lock-free calls `in` / `len` of client b may see the managed dict in the middle of client a's operation
+        singles_b = ([[put(k, 20 + k, 2.0)] for k in range(3)] + [[["G", k]] for k in range(2)]
+                     + [[["L"]], [["M", 0]], [["M", 2]], [["L"], ["M", 1]], [["X"]]])
         one = [{"kind": "conc", "cfg": cfg, "keys": 3, "setup": s, "a": a, "b": b}
                for s in setups for a in singles_a for b in singles_b]
         doubles = [[put(2, 11), ["G", 0]], [["G", 0], put(2, 12)], [["G", 1], ["G", 0]], [put(0, 13), put(2, 14)],
@@ -553,8 +564,8 @@ def conc_cases(rng, quick):
                 "b": [[o[0], o[1], o[2] + 10, o[3]] if o[0] == "P" else o for o in b]}
                for s in setups[1:] for a in doubles for b in doubles]
         # every schedule of a case costs one pair of threads: the quick tier samples the pairs
-        cases += rng.sample(one, 8) if quick else one
-        cases += rng.sample(two, 1 if quick else 15)
+        cases += rng.sample(one, 8 if quick else 75)
+        cases += rng.sample(two, 1 if quick else 10)
     return cases
 
 
